@@ -102,27 +102,95 @@ func ruleC05SwapNeverSealed(r *Run, p *Program, rule string) {
 			return
 		}
 		n++
-		fresh := false
-		for _, s := range sources(st.Val) {
-			if c, idx := callResult(s); c != nil && idx == 0 && calleeKey(&c.Call) == "(*pogreb.datalog).openSegment" {
-				fresh = true
+		// every value that can reach the store - directly, or through a local variable that a callback assigns -
+		// is a freshly opened segment, nil, or a segment that was tested "not full" where it was chosen
+		type site struct {
+			at  ssa.Instruction
+			val ssa.Value
+		}
+		var leaves []site
+		seenCell := map[ssa.Value]bool{}
+		var expand func(at ssa.Instruction, v ssa.Value, d int)
+		var cellStores func(cell ssa.Value, d int)
+		cellStores = func(cell ssa.Value, d int) {
+			if seenCell[cell] || d > 6 || cell.Referrers() == nil {
+				return
+			}
+			seenCell[cell] = true
+			for _, u := range *cell.Referrers() {
+				switch x := u.(type) {
+				case *ssa.Store:
+					if x.Addr == cell {
+						expand(x, x.Val, d+1)
+					}
+				case *ssa.MakeClosure:
+					if fn, ok := x.Fn.(*ssa.Function); ok {
+						for i, b := range x.Bindings {
+							if b == cell && i < len(fn.FreeVars) {
+								cellStores(fn.FreeVars[i], d+1)
+							}
+						}
+					}
+				}
 			}
 		}
-		if fresh {
+		expand = func(at ssa.Instruction, v ssa.Value, d int) {
+			v = strip(v)
+			if d > 6 {
+				leaves = append(leaves, site{at, v})
+				return
+			}
+			switch x := v.(type) {
+			case *ssa.Phi:
+				for _, e := range x.Edges {
+					expand(at, e, d+1)
+				}
+				return
+			case *ssa.UnOp:
+				if x.Op == token.MUL {
+					switch cell := x.X.(type) {
+					case *ssa.Alloc:
+						cellStores(cell, d+1)
+						return
+					case *ssa.FreeVar:
+						cellStores(cell, d+1)
+						return
+					}
+				}
+			}
+			leaves = append(leaves, site{at, v})
+		}
+		expand(st, st.Val, 0)
+		fresh, existing := 0, 0
+		okAll := true
+		for _, lf := range leaves {
+			if isNilConst(lf.val) {
+				continue
+			}
+			if c, idx := callResult(lf.val); c != nil && idx == 0 && calleeKey(&c.Call) == "(*pogreb.datalog).openSegment" {
+				fresh++
+				continue
+			}
+			existing++
+			g := lf.at.Parent()
+			if !controlledBy(g, lf.at, func(c *Cond) bool {
+				if c.Op != token.ILLEGAL || c.Pos {
+					return false
+				}
+				if !isFieldLoad(c.V, "pogreb.segmentMeta.Full") {
+					return false
+				}
+				return accessPath(nil, c.V).Root == accessPath(nil, lf.val).Root
+			}) {
+				okAll = false
+			}
+		}
+		if existing == 0 && fresh > 0 {
 			// a fresh segment must come from nextWritableSegmentID (a free slot, new sequence id)
 			r.ok(rule, funcKey(f)+":install-new", p.Pos(st.Pos()), "a newly opened segment becomes current", true)
 			return
 		}
-		notFull := controlledBy(f, st, func(c *Cond) bool {
-			if c.Op != token.ILLEGAL || c.Pos {
-				return false
-			}
-			if !isFieldLoad(c.V, "pogreb.segmentMeta.Full") {
-				return false
-			}
-			return accessPath(nil, c.V).Root == accessPath(nil, st.Val).Root
-		})
-		r.check(notFull, rule, funcKey(f)+":install-existing", p.Pos(st.Pos()), "an existing segment becomes current only when its meta.Full is false", "swapSegment can make a sealed segment the current segment: records are appended to a segment that compaction is moving / has removed")
+		r.check(okAll, rule, funcKey(f)+":install-existing", p.Pos(st.Pos()), "an existing segment becomes current only when its meta.Full is false", "swapSegment can make a sealed segment the current segment: records are appended to a segment that compaction is moving / has removed")
 	})
 	r.universe(rule, n, 2)
 }
@@ -136,6 +204,19 @@ func ruleC05Liveness(r *Run, p *Program, rule string) {
 	r.fn(funcKey(f))
 	var wr *ssa.Call
 	var bw []*ssa.Call
+	// the copy-and-repoint may sit in a visitor closure handed to a chain iterator: work in the function holding it
+	for _, g := range append([]*ssa.Function{f}, f.AnonFuncs...) {
+		found := false
+		instrsOf(g, func(in ssa.Instruction) {
+			if c, ok := in.(*ssa.Call); ok && calleeKey(&c.Call) == "(*pogreb.datalog).writeRecord" {
+				found = true
+			}
+		})
+		if found {
+			f = g
+			break
+		}
+	}
 	instrsOf(f, func(in ssa.Instruction) {
 		if c, ok := in.(*ssa.Call); ok {
 			switch calleeKey(&c.Call) {
@@ -227,6 +308,52 @@ func ruleC05Liveness(r *Run, p *Program, rule string) {
 		r.ok(rule, funcKey(f)+":repoint-after-copy", p.Pos(f.Pos()), "after a successful copy every return passes the bucket write", true)
 	}
 	// "reclaimed" verdict: true only on the chain-end path, false on the match path
+	if top := topFunc(f); top != f {
+		// the copy sits in a visitor closure, whose own results steer the walk; the verdict is what promoteRecord
+		// returns: the negation of a flag the closure sets before it copies
+		okv := false
+		for _, ret := range returnsOf(top) {
+			if isFailureReturn(top, ret) || len(ret.Results) != 2 {
+				continue
+			}
+			o := strip(retOperand(ret, 0))
+			if bv, isc := constBool(o); isc && !bv {
+				continue
+			}
+			okv = false
+			if un, ok := o.(*ssa.UnOp); ok && un.Op == token.NOT {
+				if ld, ok := strip(un.X).(*ssa.UnOp); ok && ld.Op == token.MUL {
+					if cell, ok := ld.X.(*ssa.Alloc); ok && cell.Referrers() != nil {
+						for _, u := range *cell.Referrers() {
+							mc, ok := u.(*ssa.MakeClosure)
+							if !ok || mc.Fn != ssa.Value(f) {
+								continue
+							}
+							for i, b := range mc.Bindings {
+								if b != ssa.Value(cell) || i >= len(f.FreeVars) {
+									continue
+								}
+								fv := f.FreeVars[i]
+								okv = mustPrecede(f, wr, func(in ssa.Instruction) bool {
+									st, ok := in.(*ssa.Store)
+									if !ok || st.Addr != ssa.Value(fv) {
+										return false
+									}
+									bv, isc := constBool(st.Val)
+									return isc && bv
+								})
+							}
+						}
+					}
+				}
+			}
+			if !okv {
+				break
+			}
+		}
+		r.check(okv, rule, funcKey(top)+":verdict-after-copy", p.Pos(top.Pos()), "a copied record is reported as not reclaimed (the visitor sets the 'found' flag before copying; promoteRecord returns its negation)", "a copied (live) record can be reported as reclaimed")
+		return
+	}
 	for _, ret := range returnsOf(f) {
 		if isFailureReturn(f, ret) || len(ret.Results) != 2 {
 			continue
@@ -957,7 +1084,18 @@ func ruleC11Cursor(r *Run, p *Program, rule string) {
 		r.fn(funcKey(g))
 		want := map[string]int{"pogreb.item.key": 0, "pogreb.item.value": 1}
 		seen := map[string]bool{}
-		instrsOf(g, func(in ssa.Instruction) {
+		// in fetchItems itself or in the visitor closure it hands to a chain iterator helper
+		deepInstrsOf := func(fn *ssa.Function, visit func(in ssa.Instruction)) {
+			var rec func(h *ssa.Function)
+			rec = func(h *ssa.Function) {
+				instrsOf(h, visit)
+				for _, a := range h.AnonFuncs {
+					rec(a)
+				}
+			}
+			rec(fn)
+		}
+		deepInstrsOf(g, func(in ssa.Instruction) {
 			st, ok := in.(*ssa.Store)
 			if !ok {
 				return
